@@ -208,6 +208,16 @@ class Plan:
                 out.append(f"{vis}fn {name}(x: {self.lt_ty}) -> {self.lt_ty} {{ x }}")
             elif kind == "ufn":
                 out.append(f'{vis}unsafe fn {name}() -> &\'static str {{ "{tag}" }}')
+            elif kind in ("tpfn", "pdfn"):
+                fi_ = self.blocks()[bi][0]
+                f_ = self.families[fi_]
+                _st, targs_, _th = self.member_header(f_, m)
+                tys = [a for a in targs_ if a[0] not in ("lt_", "cst_")]
+                arg = pr(named(tys[0], m.names)) if tys else "u8"
+                if kind == "tpfn":
+                    out.append(f"{vis}fn {name}(x: Option<{arg}>) -> Option<{arg}> {{ x }}")
+                elif m.overrides is None or name in m.overrides:
+                    out.append(f'{vis}fn {name}() -> &\'static str {{ "{tag}" }}')
             elif kind == "elfn":
                 # a late-bound lifetime named in the trait (and in even-numbered blocks), elided in odd-numbered blocks: legal Rust
                 if bi % 2 == 0:
@@ -245,6 +255,13 @@ class Plan:
                 items.append(f"fn {name}(x: {self.lt_ty}) -> {self.lt_ty};")
             elif kind == "elfn":
                 items.append(f"fn {name}<'q>(x: &'q u8) -> &'q u8;")
+            elif kind in ("tpfn", "pdfn"):
+                tp0 = next((g[1] for g in self.trait_generics if g[0] == "ty"), None)
+                if tp0 and kind == "tpfn":
+                    items.append(f"fn {name}(x: Option<{tp0}>) -> Option<{tp0}>;")
+                elif tp0:
+                    # the parameter as a PATH PREFIX in expression position inside a default body
+                    items.append(f'fn {name}() -> &\'static str {{ let _x = {tp0}::default(); "dflt.{name}" }}')
         uns = "unsafe " if self.trait_unsafe else ""
         return f"{self.trait_vis}{uns}trait {self.trait_name}{gtxt}{self.trait_supers}{self.trait_where} {{ {self.trait_inner}{' '.join(items)} }}"
 
@@ -553,6 +570,7 @@ NEST = [
     lambda v: ("ctor", "Box", [("aty", v)]),
     lambda v: ("ctor", "W1", [("aty", v)]),
     lambda v: ("tuple", [v, ("leaf", "u8")]),
+    lambda v: ("tuple", [v]),          # `(T,)`: the trailing comma is part of the type (repaired defect D43)
 ]
 
 
@@ -1357,7 +1375,7 @@ class PlanGen:
         tp_bounds = []
         where_bounds = []
         for i in range(ntp):
-            b = self.pick(["", "", "Plain0", "Clone"])
+            b = self.pick(["", "", "Plain0", "Clone"]) if (i > 0 or r.random() < 0.85) else "Default"
             dflt = "u8" if (i == ntp - 1 and not has_const and r.random() < 0.3) else None
             if b == "Clone" and r.random() < 0.6:
                 # the bound in the trait's where-clause instead of inline
@@ -1374,6 +1392,10 @@ class PlanGen:
         plan.notes["keep_plain"] = True   # probes must be well-formed trait references: bounds of trait parameters always hold
         nlt = sum(1 for g_ in gens if g_[0] == "lt")
         plan.items = [("const", "NAME", False)] + ([("fn", "tag", False)] if r.random() < 0.5 else []) + ([("fn", "dtag", True)] if r.random() < 0.4 else [])
+        if ntp and r.random() < 0.35:
+            plan.items.append(("tpfn", "tp", False))      # a signature mentioning the trait's first type parameter (seeded change C16f)
+        if ntp and tp_bounds[0] == "Default":
+            plan.items.append(("pdfn", "pd", True))       # `P0::default()` in a default body (seeded change C03f)
         if has_lt:
             plan.items.append(("ltfn", "lt", False))
             plan.lt_ty = self.pick(["&'a u8", "&'a u8", "Option<&'a u8>", "core::result::Result<&'a u8, Vec<&'a str>>", "(u8, Box<&'a [u8]>)"])
@@ -1390,6 +1412,10 @@ class PlanGen:
             fresh = nparams
             for i in range(ntp):
                 c = r.random()
+                if tp_bounds[i] == "Default":
+                    targs_ty.append(self.pick([("ctor", "Vec", [("aty", leaf("u8"))]), ("ctor", "Option", [("aty", leaf("u16"))]),
+                                               ("ctor", "Vec", [("aty", ("tp", 0))]), leaf("u8"), leaf("String")]))
+                    continue
                 if c < 0.4:
                     p = r.randrange(nparams) if r.random() < 0.6 else None
                     if p is None:
